@@ -55,6 +55,21 @@ CHECKS = {
         technique="exhaustive enumeration of every labelled graph up to a size bound against Warshall-closure classes, plus exhaustive enumeration of all successor-set visiting orders of the SCC routine through an order seam",
         text="Every digraph with n<=4/5 and undirected graph with n<=6/7 (loops and parallel edges at n<=3/4) x insertion orders: the three component functions, number/node component, bfs from every node, bfs_equal_size_partitions for k=1..n+1 and the kind guards are compared with reachability classes from a Warshall closure. For digraphs with n<=4 every combination of visiting orders of the successor sets inside strongly_connected_components is executed (the order dependence the tests cannot control).",
         note="Trusted: Warshall oracle; the H4 order seam (shadowing Vec in place of HashSet iteration). Sizes as listed."),
+    "C11": dict(
+        engine=E2, category="model_checking", design_ref="DESIGN.md §5 C11",
+        technique="exhaustive enumeration of every labelled single-edge graph up to a size bound x every non-empty node subset, against definition-level oracles (matrix-cube forms of the Fagiolo / Onnela coefficients)",
+        text="All single-edge graphs (undirected n<=5/6, directed n<=4, every self-loop placement at n<=4, weights {1,2,3}) x every non-empty subset of nodes and None: clustering (4 variants), average_clustering, triangles, transitivity, generalized_degree and square_clustering are compared with independent implementations of their definitions on the loop-free simple graph; subset answers must equal the full computation restricted to the subset; multi-edge graphs and (for the undirected-only functions) directed graphs must be refused with WrongMethod; coefficients must lie in [0,1].",
+        note="Trusted: oracle formulas in c11.rs. Tolerance 1e-9. Weighted graphs whose strictly largest weight sits on a self-loop are skipped for the weighted coefficients (normalisation convention not fixed by the statement); 0/0 cases are not asserted."),
+    "C12": dict(
+        engine=E2, category="model_checking", design_ref="DESIGN.md §5 C12",
+        technique="exhaustive enumeration of graphs x every multiset of node subsets (incl. a foreign name, the empty set, repeats), against the set-theoretic partition definition and Newman's formula in exact rationals",
+        text="Every graph of every kind with n<=3 (n=4 thorough) x every multiset of at most 3-4 subsets of (nodes + one foreign name): is_partition must equal (pairwise disjoint, only graph nodes, covering); modularity must refuse every non-partition with NotAPartition and equal Newman's formula (parallel edges individually, loops once in L_c and twice in the degree, directed out x in) for every true partition x weighted x resolution in {0.5,1,2}. The enumeration contains the families where an overlap and an omission cancel in the member count.",
+        note="Trusted: rational-arithmetic oracle. Weights {1,2}; graphs with >= 1 edge for modularity."),
+    "C18": dict(
+        engine=E2, category="model_checking", design_ref="DESIGN.md §5 C18",
+        technique="exhaustive enumeration of single-edge graphs x max_iter x tolerance; result checked as unit-norm non-negative approximate fixed point of the documented iteration with a derived bound",
+        text="All single-edge graphs (directed n<=4 with loop placements at n<=3, undirected n<=5; unweighted and weights {0,1,2}) x max_iter in {1,2,5,100,1000} x tolerance in {1e-2,1e-6,1e-12}: an Ok result must have one entry per node, non-negative entries, Euclidean norm 1 (1e-9), and one further step x -> normalise(x + A^T x) may move it by at most 2(1+||A||_F) n tol (derived, not tuned); an Err must be PowerIterationFailedConvergence.",
+        note="Trusted: the bound derivation (DESIGN §5 C18). Which inputs converge is not asserted."),
 }
 
 PENDING = {}
